@@ -58,6 +58,19 @@ def _simple(e) -> bool:
     return False
 
 
+def _readonly_expr(e) -> bool:
+    """reads only: attribute / item reads, operators, getters (`x.get_*()`, `x.is_*()`), value-returning methods, numpy free functions"""
+    from .canon import _reads_only, _pure_builtin
+    for n in ast.walk(e):
+        if isinstance(n, ast.Call):
+            getter = isinstance(n.func, ast.Attribute) and (n.func.attr.startswith("get_") or n.func.attr.startswith("is_"))
+            if not (getter or _reads_only(n) or _pure_builtin(n)):
+                return False
+        if isinstance(n, (ast.Lambda, ast.Await, ast.Yield, ast.YieldFrom, ast.NamedExpr, ast.ListComp, ast.SetComp, ast.DictComp, ast.GeneratorExp, ast.Starred)):
+            return False
+    return True
+
+
 def _names(node) -> Set[str]:
     out = set()
     for n in ast.walk(node):
@@ -167,7 +180,7 @@ class _Subst(ast.NodeTransformer):
         return node
 
 
-def _bind(h: Helper, call: ast.Call, receiver, caller_names: Set[str], target_name: Optional[str]):
+def _bind(h: Helper, call: ast.Call, receiver, caller_names: Set[str], target_name: Optional[str], pure_args: bool = False):
     """-> (pre-assignments, substitution map, rename map)"""
     if any(isinstance(a, ast.Starred) for a in call.args) or any(k.arg is None for k in call.keywords):
         raise NotInlinable("star arguments")
@@ -213,10 +226,16 @@ def _bind(h: Helper, call: ast.Call, receiver, caller_names: Set[str], target_na
     pre: List[ast.stmt] = []
     mapping: Dict[str, ast.AST] = {}
     rename: Dict[str, str] = {}
+    body_mod = ast.Module(body=h.body, type_ignores=[])
     for p, a in bound.items():
         if _simple(a) and p not in stored_in_helper:
             if not (isinstance(a, ast.Name) and a.id == p):
                 mapping[p] = a
+            continue
+        if pure_args and p not in stored_in_helper and _readonly_expr(a) \
+                and sum(1 for n in ast.walk(body_mod) if isinstance(n, ast.Name) and n.id == p) == 1:
+            # read exactly once by a single-expression helper, and only reads itself: where it is evaluated cannot matter
+            mapping[p] = a
             continue
         new = p
         if p in caller_names and not (p == target_name):
@@ -379,7 +398,7 @@ def _inline_in_function(fn, caller_cls, helpers) -> int:
                     return call
                 h, recv = m
                 try:
-                    pre, mapping, rename = _bind(h, call, recv, caller_names, None)
+                    pre, mapping, rename = _bind(h, call, recv, caller_names, None, pure_args=True)
                 except NotInlinable:
                     return call
                 if pre:
